@@ -108,7 +108,23 @@ def rule_forwarding(ctx: Ctx, repo: Repo) -> None:
     carriers = [fi for fi in repo.all_functions() if PARAM in fi.params]
     ctx.floor("R-C06.2", f"functions with a {PARAM} parameter", len(carriers), 10)
     sites = call_sites(repo, lambda c: PARAM in c.params)
-    ctx.floor("R-C06.2", f"call sites of functions carrying {PARAM}", len(sites), 28)
+    # functools.partial(f, ..., max_typed_dict_size=X) binds the limit once for all later calls through the partial object:
+    # a call site of f as far as this rule goes
+    partial_sites = []
+    for caller_p in repo.all_functions():
+        for c_p in calls_in(caller_p.node):
+            if (dotted(c_p.func) or "") in ("functools.partial", "partial") and c_p.args:
+                inner = ast.Call(func=c_p.args[0], args=list(c_p.args[1:]), keywords=list(c_p.keywords))
+                ast.copy_location(inner, c_p)
+                callee_p = repo.resolve_callee(caller_p, inner)
+                if callee_p is not None and PARAM in callee_p.params:
+                    partial_sites.append((caller_p, c_p, inner, callee_p))
+    ctx.floor("R-C06.2", f"call sites of functions carrying {PARAM} (direct calls and partial bindings)", len(sites) + len(partial_sites), 15)
+    for caller_p, c_p, inner, callee_p in partial_sites:
+        ctx.functions.add(caller_p.fq)
+        a_p = bound_argument(callee_p, inner, PARAM)
+        ok_p, why_p = _ok_source(repo, caller_p, a_p, c_p)
+        ctx.check(ok_p, "R-C06.2", caller_p.fq, f"functools.partial of {callee_p.qualname} binds the caller's limit", construct=f"{norm(c_p)[:120]}", node=c_p, reason=why_p)
     from . import glue_model as GM
     GM.check_forwarding(ctx, repo, "R-C06.2", PARAM, PARAM, "call of trace_calls forwards the configuration's limit")
     GM.check_tracer_forwarding(ctx, repo, "R-C06.2", PARAM, PARAM, "call of CallTracer.__init__ forwards the caller's limit")
